@@ -293,8 +293,9 @@ def timestamp(value: bytes) -> typing.Tuple[int, datetime.datetime]:
             except OverflowError as error:
                 raise ValueError(str(error))
 
-        return 8, datetime.datetime.fromtimestamp(ts_value,
-                                                  tz=datetime.timezone.utc)
+        # Plain arithmetic on the epoch: the C library's gmtime() applies leap
+        # seconds when TZ names one of the "right/" zones
+        return 8, _EPOCH + datetime.timedelta(seconds=ts_value)
     except TypeError:
         raise ValueError('Could not unpack timestamp value')
 
